@@ -33,6 +33,8 @@ E2_REPLAY = {
                              [("scale", 4), ("offset", 4), ("value", 4), ("x", 4)]),
     ("invert", None): ("h_e2::e2_view_lower_bound_predicate",
                        [("scale", 4), ("offset", 4), ("value", 4), ("x", 4)]),
+    # C04: minimise an unconstrained variable whose smallest value is `best` (public API)
+    ("lsu", None): ("h_opt::lsu_minimise_from", [("best", 4)]),
 }
 
 
@@ -50,6 +52,21 @@ def register_all():
                "fresh q,r constrained by the truncated-division lemma)"],
         only_props=["C12", "C16"])
     registry.HARNESSES["e2::view_and_rounding_kernels"]["engine"] = "e2"
+    registry.H(
+        "e2::lsu_strengthen_kernel", "pumpkin-solver", "e2", ["O7", "K-strengthen"], "quick",
+        ["LinearSatUnsat::strengthen (MIR; the calls to PredicateConstructor::"
+         "upper_bound_predicate and ConstraintSatisfactionSolver::add_clause are observed: "
+         "integer arguments recorded with the path condition, results opaque)",
+         "<i32 as TryFrom<i64>>::try_from (modelled by its contract: Ok(x as i32) iff x fits)"],
+        "best: any i64 word that is the value of an i32 objective (assumption: best in i32)",
+        "full width, loop-free function (no unwinding bound); 4 SMT queries (bit-vectors), z3 "
+        "4.8.12 + cvc5 1.0 portfolio, %d s cap per solver run" % E2_SOLVER_CAP_S,
+        timeout=600, mem_gb=4, full_range=True,
+        stubs=["observed calls (see encodes); core's integer TryFrom by contract"],
+        only_props=["C04"])
+    registry.HARNESSES["e2::lsu_strengthen_kernel"]["engine"] = "e2"
+    registry.HARNESSES["e2::lsu_strengthen_kernel"]["e2_builder"] = "c04"
+    registry.PROPERTY_TAGS["C04"] = ["O7", "K-strengthen"]
 
 
 def run_unit(h, lane):
@@ -117,7 +134,11 @@ def run_e2(h):
                computed_at=time.strftime("%Y-%m-%dT%H:%M:%SZ", time.gmtime()))
     try:
         text, dump_s = e2.dump_mir()
-        queries, notes = e2.build_queries(text)
+        if h.get("e2_builder") == "c04":
+            import c04
+            queries, notes = c04.build_queries(text)
+        else:
+            queries, notes = e2.build_queries(text)
     except Exception as exc:  # noqa: BLE001
         res.update(error="e2-translation", error_text=repr(exc)[:1500], verdict=None,
                    wall_s=round(time.time() - t0, 1))
